@@ -383,6 +383,7 @@ class ImportURI(scoping.ModelLoader):
 
     def __call__(self, obj, attr, obj_ref):
         from textx.model import ObjCrossRef, get_model
+        from textx.scoping.tools import get_parser
 
         assert type(obj_ref) is ObjCrossRef, type(obj_ref)
         # cls, obj_name = obj_ref.cls, obj_ref.obj_name
@@ -401,7 +402,16 @@ class ImportURI(scoping.ModelLoader):
 
         # 2) do we have loaded models?
         for m in model_repository.local_models:
-            ret = self.scope_provider(m, attr, obj_ref)
+            try:
+                ret = self.scope_provider(m, attr, obj_ref)
+            except TextXSemanticError as e:
+                if m is not model and e.filename == m._tx_filename:
+                    # The provider has located the error by means of the
+                    # searched model, but the reference is a text of the
+                    # model being resolved.
+                    e.line, e.col = get_parser(obj).pos_to_linecol(obj_ref.position)
+                    e.filename = model._tx_filename
+                raise
             if ret:
                 return ret
 
